@@ -75,17 +75,33 @@ class Resolver:
             if not init:
                 continue
             params = set(init.params[1:])
+            # locals of the constructor: every value assigned to them (flow-insensitive), so that `s = param; if ...: s = Wrapper(s); self.f = s` is followed
+            local_vals: dict = {}
+            for st in walk_no_nested(init.node):
+                if isinstance(st, ast.Assign) and len(st.targets) == 1 and isinstance(st.targets[0], ast.Name):
+                    local_vals.setdefault(st.targets[0].id, []).append(st.value)
+
+            def from_param(x, depth=0) -> bool:
+                if isinstance(x, ast.Name):
+                    if x.id in params:
+                        return True
+                    return depth < 4 and any(from_param(v, depth + 1) for v in local_vals.get(x.id, []))
+                return False
+
             for st in walk_no_nested(init.node):
                 if isinstance(st, ast.Assign) and len(st.targets) == 1 and isinstance(st.targets[0], ast.Attribute):
                     t = st.targets[0]
                     if not (isinstance(t.value, ast.Name) and t.value.id == "self"):
                         continue
                     entry = out.setdefault((cq, t.attr), {"param": False, "wrappers": set()})
-                    alts, todo = [], [st.value]
-                    while todo:  # a conditional expression contributes both arms
+                    alts, todo, seen = [], [st.value], set()
+                    while todo:  # a conditional expression contributes both arms, a local every value assigned to it
                         x = todo.pop()
                         if isinstance(x, ast.IfExp):
                             todo.extend([x.body, x.orelse])
+                        elif isinstance(x, ast.Name) and x.id not in params and x.id in local_vals and x.id not in seen:
+                            seen.add(x.id)
+                            todo.extend(local_vals[x.id])
                         else:
                             alts.append(x)
                     for v in alts:
@@ -93,7 +109,7 @@ class Resolver:
                             entry["param"] = True
                         elif isinstance(v, ast.Call) and isinstance(v.func, ast.Name):
                             tgt = self.modnames[mod].get(v.func.id)
-                            if tgt and tgt[0] == "class" and any(isinstance(a, ast.Name) and a.id in params for a in v.args):
+                            if tgt and tgt[0] == "class" and any(from_param(a) for a in v.args):
                                 entry["wrappers"].add(tgt[1])
         return {k: v for k, v in out.items() if v["param"] or v["wrappers"]}
 
